@@ -3,6 +3,7 @@ package node
 import (
 	"bytes"
 	"net/url"
+	"strconv"
 	"strings"
 
 	"github.com/freeconf/yang/meta"
@@ -58,7 +59,12 @@ func (seg *Path) toBuffer(b *bytes.Buffer) {
 			if k != nil {
 				// same escaping that parsing a path undoes, otherwise keys holding
 				// any of / , = % or spaces render a path to somewhere else
-				b.WriteString(url.QueryEscape(k.String()))
+				text := k.String()
+				if d, isDecimal := k.(val.Decimal64); isDecimal {
+					// every digit, String() stops at six
+					text = strconv.FormatFloat(float64(d), 'f', -1, 64)
+				}
+				b.WriteString(url.QueryEscape(text))
 			} else {
 				b.WriteString("<nil>")
 			}
